@@ -65,6 +65,7 @@ struct P {
     bool preempt_due; double preempt_due_t;
     int kindbias;
     uint64_t objctr;
+    int64_t last_sig;
     int follow_hold;         /* do a checked hold right after a non-success return */
 };
 
